@@ -18,6 +18,7 @@ RULE = ("circuits: every sequence of <=L operations over {X(q), RY(a_q)(q) with 
         "wide registers: X on every single qubit (and two patterns, and two-outcome states) on 9 qubits in both regimes. "
         "non-trivial = state not symmetric under qubit reversal; distinct = canonical circuit")
 RULE += ' Also: a controlled RX(theta) on every ordered index tuple simulated symbolically and bound afterwards; sample counts from 999 to 100000 under scripted and real generators.'
+RULE += ' Round 7: operators written with explicit identity factors; asymmetric numeric gates after a symbolic gate (late binding); one batch of equal operations on different register widths.'
 RULE += ' Round 6: product states on 5-12 qubits: unevenly spaced qubit triples / quadruples, sums with different coefficients on qubits >= 8 and below, exact distribution of 11-12 qubits.'
 RULE += ' Round 5: operator objects re-used across views with a qubit-reversed expectation in between; unsimplified sums repeating a string; CNOTs between far-apart qubits on 7/9-qubit registers.'
 ASSUMPTIONS = ["gate matrices taken from the library (C02), embedding from the /verif reference (C01)", "np.random.default_rng(seed).choice is the only randomness in sampling (trapped otherwise)",
@@ -318,6 +319,18 @@ def product_wide_case(case):
         S = tuple(dict.fromkeys(S))
         exp = float(rs.mean([F(rs.eig(sh, S)) for sh in shots]))
         got = m.get_expectation_values(z_op(S)).values[0]
+        # the same operator written with EXPLICIT identity factors on other qubits (dict and text form): an identity acts on no qubit, in every view
+        idle = [q for q in range(n) if q not in S][:2]
+        if idle and S:
+            for alt in (PauliTerm({**{q: "Z" for q in S}, **{q: "I" for q in idle}}, 1.0), PauliTerm("*".join(["Z%d" % q for q in S] + ["I%d" % q for q in idle]))):
+                ga = m.get_expectation_values(PauliSum([alt])).values[0]
+                k += 1
+                if abs(ga - exp) > 1e-9:
+                    return {"ok": False, "msg": "measured <%s> (explicit identity factors on qubits %s) differs from the sample mean of Z on %s" % (alt, idle, list(S)), "expected": exp, "observed": float(ga), "sig": "product:measured-identity", "ops": k}
+            if not light and len(S) <= 2:
+                ge = sim.get_exact_expectation_values(c, PauliSum([alt]))
+                if abs(ge - float(np.prod([zexp[q] for q in S]))) > 1e-9:
+                    return {"ok": False, "msg": "exact <%s> with explicit identity factors" % alt, "sig": "product:exact-identity", "ops": k}
         gf = get_expectation_value_from_frequencies(list(S), dict(counts))
         pr = get_parities_from_measurements(list(shots), PauliSum([PauliTerm({q: "Z" for q in S}, 1.0)]))
         ev = sum(1 for sh in shots if rs.eig(sh, S) == 1)
@@ -337,11 +350,13 @@ def symbolic_case(case):
     n, q = case["n"], case["q"]
     th = sympy.Symbol("theta")
     gate = C.RX(th).controlled(len(q) - 1)
-    ops = [C.X(p) for p in case["pre"]] + [gate(*q)] + [C.RY(ANG[0])(q[-1])]
+    post = case.get("post", [])        # numeric gates that follow the symbolic one: they act on a state that already holds expressions
+    from mc.gates import mk_gate
+    ops = [C.X(p) for p in case["pre"]] + [gate(*q)] + [C.RY(ANG[0])(q[-1])] + [mk_gate(o["gate"])(*o["q"]) for o in post]
     circ = C.Circuit(ops, n_qubits=n)
     k = 0
     for v in (0.9, float(np.pi)):
-        ref_ops = [{"gate": G("X"), "q": [p]} for p in case["pre"]] + [{"gate": {"w": "controlled", "k": len(q) - 1, "of": G("RX", v)}, "q": list(q)}, {"gate": G("RY", ANG[0]), "q": [q[-1]]}]
+        ref_ops = [{"gate": G("X"), "q": [p]} for p in case["pre"]] + [{"gate": {"w": "controlled", "k": len(q) - 1, "of": G("RX", v)}, "q": list(q)}, {"gate": G("RY", ANG[0]), "q": [q[-1]]}] + list(post)
         psi = ref_unitary(ref_ops, n)[:, 0]
         wf = SymbolicSimulator().get_wavefunction(circ)
         late = np.asarray(wf.bind({th: v}).amplitudes, dtype=complex).reshape(-1)
@@ -353,6 +368,30 @@ def symbolic_case(case):
         if not _close(early, psi, atol=TOL):
             return {"ok": False, "msg": "state of the circuit bound first differs from the reference", "sig": "symbolic:early-bind", "ops": k}
     return {"ok": True, "nt": list(q) != sorted(q) or q[-1] - q[0] != len(q) - 1, "ops": k, "out": "n%d" % n}
+
+
+def batch_width_case(case):
+    """{'ops': [...], 'widths': [w...], 'shots': k}: ONE run_batch_and_measure call with circuits that list the same operations on registers of different widths (and equal circuits
+    twice): result i has tuples as long as circuit i's register, every outcome has non-zero exact probability for circuit i"""
+    from orquestra.quantum import circuits as C
+    from orquestra.quantum.runners.symbolic_simulator import SymbolicSimulator
+    from mc.gates import mk_gate
+    circs = [C.Circuit([mk_gate(o["gate"])(*o["q"]) for o in case["ops"]], n_qubits=w) if w else C.Circuit([mk_gate(o["gate"])(*o["q"]) for o in case["ops"]]) for w in case["widths"]]
+    sim = SymbolicSimulator(seed=5)
+    res = sim.run_batch_and_measure(circs, case["shots"])
+    if len(res) != len(circs):
+        return {"ok": False, "msg": "%d results for %d circuits" % (len(res), len(circs)), "sig": "batchwidth:count"}
+    for i, (c, m) in enumerate(zip(circs, res)):
+        n = c.n_qubits
+        psi = ref_unitary(case["ops"], n)[:, 0]
+        for sh in m.bitstrings:
+            if len(sh) != n or abs(psi[idx_of(tuple(sh), n)]) ** 2 < 1e-12:
+                return {"ok": False, "msg": "batch of circuits with equal operations on registers %s: result %d holds the outcome %s (register of %d qubits)" % ([x.n_qubits for x in circs], i, tuple(sh), n),
+                        "sig": "batchwidth:outcome"}
+        cnt = m.get_counts()
+        if any(len(key) != n for key in cnt):
+            return {"ok": False, "msg": "count strings of result %d are not as long as its register" % i, "sig": "batchwidth:counts"}
+    return {"ok": True, "nt": len(set(c.n_qubits for c in circs)) >= 2, "ops": len(circs), "out": "batch"}
 
 
 def many_case(case):
@@ -397,7 +436,7 @@ def many_case(case):
     return {"ok": True, "nt": len(support) >= 1, "ops": 3 + 2 ** n, "out": "k%d" % k}
 
 
-FUNCS = {"product_wide": product_wide_case, "many_samples": many_case, "symbolic": symbolic_case, "views": views_case, "real_rng": real_rng_case, "wide": wide_case}
+FUNCS = {"batch_widths": batch_width_case, "product_wide": product_wide_case, "many_samples": many_case, "symbolic": symbolic_case, "views": views_case, "real_rng": real_rng_case, "wide": wide_case}
 
 
 def run(run):
@@ -428,6 +467,11 @@ def run(run):
                     sy.append({"n": n, "q": list(q), "pre": pre})
     if not thorough:
         sy += [{"n": 4, "q": list(q), "pre": [q[0]]} for q in itertools.permutations(range(4), 2)]
+    # numeric gates that are NOT symmetric in their qubits, applied after the symbolic gate (on a state that already holds expressions), on every ordered pair
+    for q2 in itertools.permutations(range(3), 2):
+        for pg in (G("CNOT"), G("custom2"), {"w": "controlled", "k": 1, "of": G("RZ", 0.7)}, G("MS", 0.3, 1.1)):
+            sy.append({"n": 3, "q": [q2[1], q2[0]], "pre": [q2[1]], "post": [{"gate": pg, "q": list(q2)}]})
+            sy.append({"n": 3, "q": [0, 1, 2], "pre": [0, 1], "post": [{"gate": pg, "q": list(q2)}, {"gate": G("custom1"), "q": [q2[0]]}]})
     secs.append(Section("symbolic", sy, symbolic_case, horizon=900, desc="a controlled RX(theta) on every ordered index tuple: symbolic state vector bound afterwards vs circuit bound first vs reference"))
     mcirc = [{"ops": [{"gate": G("X"), "q": [0]}], "n": 2}, {"ops": [{"gate": G("X"), "q": [2]}, {"gate": G("RY", ANG[1]), "q": [0]}], "n": 3},
              {"ops": [{"gate": G("RY", ANG[0]), "q": [0]}, {"gate": G("CNOT"), "q": [0, 2]}, {"gate": G("X"), "q": [1]}], "n": 3}, {"ops": [{"gate": G("X"), "q": [1]}, {"gate": G("X"), "q": [3]}], "n": 4}]
@@ -451,6 +495,9 @@ def run(run):
             wide.append({"n": n, "x": [], "ry": ct, "cnot": [[ct, tg], [tg, (ct + 1) % n if (ct + 1) % n != tg else (ct + 2) % n]], "samples": 2})
     secs.append(Section("wide", wide, wide_case, horizon=900, desc="registers of 9 (thorough 8-10) qubits, where a basis index needs more than one byte: basis and two-outcome states, also entangled by CNOTs between far-apart qubits (7 and 9 qubits), "
                         "both sampling regimes (1-2 samples, 2^n+1 samples), every answer script with <= 1 deviation"))
+    bw = [{"ops": o_, "widths": w_, "shots": k_} for o_ in ([{"gate": G("X"), "q": [0]}], [{"gate": G("X"), "q": [1]}, {"gate": G("CNOT"), "q": [1, 0]}], [{"gate": G("RY", 0.7), "q": [1]}, {"gate": G("X"), "q": [0]}])
+          for w_ in ([None, 4], [4, None], [2, 3, 2], [3, 3], [None, 5, 3]) for k_ in (3, 40)]
+    secs.append(Section("batch_widths", bw, batch_width_case, desc="one batch call with circuits listing the same operations on registers of different widths: every result belongs to its own circuit"))
     secs.append(Section("product_wide", [{"n": n_, "light": n_ >= 11} for n_ in ((5, 6, 7, 9, 10, 11, 12, 13) if thorough else (5, 6, 7, 9, 10, 11))], product_wide_case, horizon=900, chunk=1,
                         desc="product states with a different polarisation per qubit on 5-11 (thorough 13) qubits: exact <O> for operators coupling low and high qubits with different coefficients, every subset shape of <= 4 "
                         "qubits (5-7 qubits), exact distribution, measured expectation values / frequencies / parity tallies"))
